@@ -27,7 +27,7 @@ use rustybgp_packet::mpls::{MplsLabel, MplsLabelStack};
 use rustybgp_packet::rd::RouteDistinguisher;
 use rustybgp_packet::{Nlri, evpn, flowspec, labeled, ls, mup, rtc, sr_policy, vpn};
 use std::io::Cursor;
-use std::net::{Ipv4Addr, Ipv6Addr};
+use std::net::{IpAddr, Ipv4Addr, Ipv6Addr};
 use std::sync::Arc;
 
 struct BadCase(&'static str);
@@ -90,6 +90,213 @@ fn generic_nlri(fam: Family, b: &[u8]) -> Result<Nlri, BadCase> {
     Ok(n)
 }
 
+
+fn ip_of(b: &[u8]) -> Result<IpAddr, BadCase> {
+    match b.len() {
+        4 => Ok(IpAddr::V4(Ipv4Addr::new(b[0], b[1], b[2], b[3]))),
+        16 => {
+            let a: [u8; 16] = b[..].try_into().unwrap();
+            Ok(IpAddr::V6(Ipv6Addr::from(a)))
+        }
+        _ => Err(BadCase("ip length")),
+    }
+}
+fn ip_val(a: &IpAddr) -> Val {
+    match a {
+        IpAddr::V4(x) => Val::from_bytes(&x.octets()),
+        IpAddr::V6(x) => Val::from_bytes(&x.octets()),
+    }
+}
+fn ops_of(v: &Val) -> Vec<flowspec::Op> {
+    v.list().iter().map(|o| flowspec::Op { bits: o.at(0).u8(), value: o.at(1).u64() }).collect()
+}
+fn ops_val(ops: &[flowspec::Op]) -> Val {
+    Val::L(ops.iter().map(|o| Val::L(vec![Val::n(o.bits), Val::n(o.value)])).collect())
+}
+fn fs4_comp_of(v: &Val) -> Result<flowspec::FlowspecV4Component, BadCase> {
+    use flowspec::FlowspecV4Component as C;
+    let l = v.list();
+    if l[0].int() == 0 {
+        let net = Ipv4Net { addr: v4addr(&l[4]), mask: l[2].u8() };
+        return match l[1].int() {
+            1 => Ok(C::DstPrefix(net)),
+            2 => Ok(C::SrcPrefix(net)),
+            _ => Err(BadCase("flowspec prefix component type")),
+        };
+    }
+    let ops = ops_of(&l[2]);
+    Ok(match l[1].int() {
+        3 => C::Protocol(ops),
+        4 => C::Port(ops),
+        5 => C::DstPort(ops),
+        6 => C::SrcPort(ops),
+        7 => C::IcmpType(ops),
+        8 => C::IcmpCode(ops),
+        9 => C::TcpFlags(ops),
+        10 => C::PacketLen(ops),
+        11 => C::Dscp(ops),
+        12 => C::Fragment(ops),
+        _ => return Err(BadCase("flowspec v4 component type")),
+    })
+}
+fn fs6_comp_of(v: &Val) -> Result<flowspec::FlowspecV6Component, BadCase> {
+    use flowspec::FlowspecV6Component as C;
+    let l = v.list();
+    if l[0].int() == 0 {
+        let prefix = Ipv6Net { addr: v6addr(&l[4]), mask: l[2].u8() };
+        let offset = l[3].u8();
+        return match l[1].int() {
+            1 => Ok(C::DstPrefix { prefix, offset }),
+            2 => Ok(C::SrcPrefix { prefix, offset }),
+            _ => Err(BadCase("flowspec prefix component type")),
+        };
+    }
+    let ops = ops_of(&l[2]);
+    Ok(match l[1].int() {
+        3 => C::NextHeader(ops),
+        4 => C::Port(ops),
+        5 => C::DstPort(ops),
+        6 => C::SrcPort(ops),
+        7 => C::IcmpType(ops),
+        8 => C::IcmpCode(ops),
+        9 => C::TcpFlags(ops),
+        10 => C::PacketLen(ops),
+        11 => C::Dscp(ops),
+        12 => C::Fragment(ops),
+        13 => C::FlowLabel(ops),
+        _ => return Err(BadCase("flowspec v6 component type")),
+    })
+}
+fn fs4_comp_val(c: &flowspec::FlowspecV4Component) -> Val {
+    use flowspec::FlowspecV4Component as C;
+    let pfx = |t: u8, n: &Ipv4Net| {
+        Val::L(vec![Val::n(0u8), Val::n(t), Val::n(n.mask), Val::n(0u8), Val::from_bytes(&n.addr.octets())])
+    };
+    let ops = |t: u8, o: &Vec<flowspec::Op>| Val::L(vec![Val::n(1u8), Val::n(t), ops_val(o)]);
+    match c {
+        C::DstPrefix(n) => pfx(1, n),
+        C::SrcPrefix(n) => pfx(2, n),
+        C::Protocol(o) => ops(3, o),
+        C::Port(o) => ops(4, o),
+        C::DstPort(o) => ops(5, o),
+        C::SrcPort(o) => ops(6, o),
+        C::IcmpType(o) => ops(7, o),
+        C::IcmpCode(o) => ops(8, o),
+        C::TcpFlags(o) => ops(9, o),
+        C::PacketLen(o) => ops(10, o),
+        C::Dscp(o) => ops(11, o),
+        C::Fragment(o) => ops(12, o),
+    }
+}
+fn fs6_comp_val(c: &flowspec::FlowspecV6Component) -> Val {
+    use flowspec::FlowspecV6Component as C;
+    let pfx = |t: u8, n: &Ipv6Net, off: u8| {
+        Val::L(vec![Val::n(0u8), Val::n(t), Val::n(n.mask), Val::n(off), Val::from_bytes(&n.addr.octets())])
+    };
+    let ops = |t: u8, o: &Vec<flowspec::Op>| Val::L(vec![Val::n(1u8), Val::n(t), ops_val(o)]);
+    match c {
+        C::DstPrefix { prefix, offset } => pfx(1, prefix, *offset),
+        C::SrcPrefix { prefix, offset } => pfx(2, prefix, *offset),
+        C::NextHeader(o) => ops(3, o),
+        C::Port(o) => ops(4, o),
+        C::DstPort(o) => ops(5, o),
+        C::SrcPort(o) => ops(6, o),
+        C::IcmpType(o) => ops(7, o),
+        C::IcmpCode(o) => ops(8, o),
+        C::TcpFlags(o) => ops(9, o),
+        C::PacketLen(o) => ops(10, o),
+        C::Dscp(o) => ops(11, o),
+        C::Fragment(o) => ops(12, o),
+        C::FlowLabel(o) => ops(13, o),
+    }
+}
+fn esi_of(v: &Val) -> Result<evpn::Esi, BadCase> {
+    let b = v.bytes();
+    let a: [u8; 10] = b[..].try_into().map_err(|_| BadCase("esi"))?;
+    Ok(evpn::Esi(a))
+}
+fn evpn_of(l: &[Val]) -> Result<evpn::EvpnNlri, BadCase> {
+    Ok(match l[1].int() {
+        1 => evpn::EvpnNlri::EthernetAutoDiscovery(evpn::EthernetAutoDiscoveryRoute {
+            rd: rd_of(&l[2])?,
+            esi: esi_of(&l[3])?,
+            etag: l[4].u32(),
+            label: l[5].u32(),
+        }),
+        2 => {
+            let mac: [u8; 6] = l[5].bytes()[..].try_into().map_err(|_| BadCase("mac"))?;
+            let ipb = l[6].bytes();
+            evpn::EvpnNlri::MacIpAdvertisement(evpn::MacIpAdvertisement {
+                rd: rd_of(&l[2])?,
+                esi: esi_of(&l[3])?,
+                etag: l[4].u32(),
+                mac,
+                ip: if ipb.is_empty() { None } else { Some(ip_of(&ipb)?) },
+                label1: l[7].u32(),
+                label2: l[8].list().first().map(|x| x.u32()),
+            })
+        }
+        3 => evpn::EvpnNlri::InclusiveMulticastEthernetTag(evpn::InclusiveMulticastEthernetTag {
+            rd: rd_of(&l[2])?,
+            etag: l[3].u32(),
+            originating_router_ip: ip_of(&l[4].bytes())?,
+        }),
+        4 => evpn::EvpnNlri::EthernetSegment(evpn::EthernetSegmentRoute {
+            rd: rd_of(&l[2])?,
+            esi: esi_of(&l[3])?,
+            originating_router_ip: ip_of(&l[4].bytes())?,
+        }),
+        5 => evpn::EvpnNlri::EthernetIpPrefix(evpn::EthernetIpPrefixRoute {
+            rd: rd_of(&l[2])?,
+            esi: esi_of(&l[3])?,
+            etag: l[4].u32(),
+            prefix_len: l[5].u8(),
+            ip_prefix: ip_of(&l[6].bytes())?,
+            gateway_ip: ip_of(&l[7].bytes())?,
+            label: l[8].u32(),
+        }),
+        _ => return Err(BadCase("evpn route type")),
+    })
+}
+fn evpn_val(e: &evpn::EvpnNlri) -> Val {
+    use evpn::EvpnNlri as E;
+    let t = |n: u8| Val::n(n);
+    match e {
+        E::EthernetAutoDiscovery(r) => Val::L(vec![t(12), t(1), rd_val(&r.rd), Val::from_bytes(&r.esi.0), Val::n(r.etag), Val::n(r.label)]),
+        E::MacIpAdvertisement(r) => Val::L(vec![
+            t(12),
+            t(2),
+            rd_val(&r.rd),
+            Val::from_bytes(&r.esi.0),
+            Val::n(r.etag),
+            Val::from_bytes(&r.mac),
+            match &r.ip {
+                Some(a) => ip_val(a),
+                None => Val::L(vec![]),
+            },
+            Val::n(r.label1),
+            Val::opt(r.label2.map(Val::n)),
+        ]),
+        E::InclusiveMulticastEthernetTag(r) => {
+            Val::L(vec![t(12), t(3), rd_val(&r.rd), Val::n(r.etag), ip_val(&r.originating_router_ip)])
+        }
+        E::EthernetSegment(r) => {
+            Val::L(vec![t(12), t(4), rd_val(&r.rd), Val::from_bytes(&r.esi.0), ip_val(&r.originating_router_ip)])
+        }
+        E::EthernetIpPrefix(r) => Val::L(vec![
+            t(12),
+            t(5),
+            rd_val(&r.rd),
+            Val::from_bytes(&r.esi.0),
+            Val::n(r.etag),
+            Val::n(r.prefix_len),
+            ip_val(&r.ip_prefix),
+            ip_val(&r.gateway_ip),
+            Val::n(r.label),
+        ]),
+    }
+}
+
 fn nlri_of(v: &Val) -> Result<Nlri, BadCase> {
     let l = v.list();
     Ok(match l[0].int() {
@@ -114,6 +321,44 @@ fn nlri_of(v: &Val) -> Result<Nlri, BadCase> {
             prefix: Ipv6Net { addr: v6addr(&l[3]), mask: l[2].u8() },
         }),
         9 => generic_nlri(caps::fam_of(&l[1]), &l[2].bytes())?,
+        10 => {
+            let v6 = l[1].bool();
+            let rd = match l[2].list().first() {
+                Some(b) => Some(rd_of(b)?),
+                None => None,
+            };
+            if v6 {
+                let comps = l[3].list().iter().map(fs6_comp_of).collect::<Result<Vec<_>, _>>()?;
+                match rd {
+                    Some(rd) => Nlri::FlowspecVpnV6(flowspec::FlowspecVpnV6Nlri { rd, components: comps }),
+                    None => Nlri::FlowspecV6(flowspec::FlowspecV6Nlri { components: comps }),
+                }
+            } else {
+                let comps = l[3].list().iter().map(fs4_comp_of).collect::<Result<Vec<_>, _>>()?;
+                match rd {
+                    Some(rd) => Nlri::FlowspecVpnV4(flowspec::FlowspecVpnV4Nlri { rd, components: comps }),
+                    None => Nlri::FlowspecV4(flowspec::FlowspecV4Nlri { components: comps }),
+                }
+            }
+        }
+        11 => Nlri::Rtc(rtc::RtcNlri {
+            match_type: match l[1].int() {
+                0 => rtc::MatchType::Wildcard,
+                1 => rtc::MatchType::AsWildcard { origin_as: l[2].u32() },
+                2 => {
+                    let b = l[3].bytes();
+                    let rt: [u8; 8] = b[..].try_into().map_err(|_| BadCase("rt"))?;
+                    rtc::MatchType::ExactMatch { origin_as: l[2].u32(), route_target: rt }
+                }
+                _ => return Err(BadCase("rtc kind")),
+            },
+        }),
+        12 => Nlri::Evpn(evpn_of(l)?),
+        13 => Nlri::SrPolicy(sr_policy::SrPolicyNlri {
+            distinguisher: l[1].u32(),
+            color: l[2].u32(),
+            endpoint: ip_of(&l[3].bytes())?,
+        }),
         _ => return Err(BadCase("nlri tag")),
     })
 }
@@ -148,6 +393,19 @@ fn nlri_val(fam: Family, n: &Nlri) -> Val {
             Val::n(x.prefix.mask),
             Val::from_bytes(&x.prefix.addr.octets()),
         ]),
+        Nlri::FlowspecV4(x) => Val::L(vec![Val::n(10u8), Val::n(0u8), Val::L(vec![]), Val::L(x.components.iter().map(fs4_comp_val).collect())]),
+        Nlri::FlowspecV6(x) => Val::L(vec![Val::n(10u8), Val::n(1u8), Val::L(vec![]), Val::L(x.components.iter().map(fs6_comp_val).collect())]),
+        Nlri::FlowspecVpnV4(x) => Val::L(vec![Val::n(10u8), Val::n(0u8), Val::L(vec![rd_val(&x.rd)]), Val::L(x.components.iter().map(fs4_comp_val).collect())]),
+        Nlri::FlowspecVpnV6(x) => Val::L(vec![Val::n(10u8), Val::n(1u8), Val::L(vec![rd_val(&x.rd)]), Val::L(x.components.iter().map(fs6_comp_val).collect())]),
+        Nlri::Rtc(x) => match &x.match_type {
+            rtc::MatchType::Wildcard => Val::L(vec![Val::n(11u8), Val::n(0u8), Val::n(0u8), Val::L(vec![])]),
+            rtc::MatchType::AsWildcard { origin_as } => Val::L(vec![Val::n(11u8), Val::n(1u8), Val::n(*origin_as), Val::L(vec![])]),
+            rtc::MatchType::ExactMatch { origin_as, route_target } => {
+                Val::L(vec![Val::n(11u8), Val::n(2u8), Val::n(*origin_as), Val::from_bytes(route_target)])
+            }
+        },
+        Nlri::Evpn(x) => evpn_val(x),
+        Nlri::SrPolicy(x) => Val::L(vec![Val::n(13u8), Val::n(x.distinguisher), Val::n(x.color), ip_val(&x.endpoint)]),
         other => Val::L(vec![
             Val::n(9u8),
             caps::fam_val(&fam),
